@@ -2,6 +2,9 @@ package sim
 
 import (
 	"bytes"
+	"crypto/rand"
+	"errors"
+	"io"
 	"encoding/json"
 	"fmt"
 	"strings"
@@ -135,6 +138,29 @@ type secretExec struct {
 	ok     bool
 }
 
+// faultyRand is crypto/rand.Reader failing after a number of good bytes.
+type faultyRand struct {
+	inner io.Reader
+	good  int
+	short bool
+	fired bool
+}
+
+func (f *faultyRand) Read(p []byte) (int, error) {
+	if f.good >= len(p) {
+		n, err := f.inner.Read(p)
+		f.good -= n
+		return n, err
+	}
+	n := 0
+	if f.good > 0 && f.short {
+		n, _ = f.inner.Read(p[:f.good])
+	}
+	f.good = 0
+	f.fired = true
+	return n, errors.New("dsim: randomness source failed")
+}
+
 func (e *secretExec) val() any {
 	if e.p.AsStr {
 		return string(e.p.Plain)
@@ -265,6 +291,46 @@ func (e *secretExec) step(s *SecStep) {
 	}
 	p := e.p
 	switch s.Op {
+	case "rngfault":
+		// the randomness source fails while an encryption draws its nonce (at once, or after k
+		// good bytes; as an error, or as a short read): the encryption must fail, or at least must
+		// not store something under a predictable nonce
+		for _, k := range []int{0, 1, 7, 23} {
+			for _, shape := range []string{"error", "short"} {
+				var stored [][]byte
+				for rep := 0; rep < 2; rep++ {
+					fr := &faultyRand{inner: rand.Reader, good: k, short: shape == "short"}
+					old := rand.Reader
+					rand.Reader = fr
+					m := meta.NewMeta()
+					var err error
+					panicked := guard(o, "Meta.AddEncrypted under a failing randomness source", func() { err = m.AddEncrypted("k", e.val(), p.Key) })
+					rand.Reader = old
+					if panicked {
+						return
+					}
+					o.Fault("rng_failure")
+					e.sig("rngfault", fmt.Sprint(k, shape, err == nil, fr.fired))
+					if err == nil && fr.fired {
+						if b, gerr := m.GetBytes("k"); gerr == nil {
+							stored = append(stored, b)
+							zeros := 0
+							for i := 23; i >= 0 && i < len(b) && b[i] == 0; i-- {
+								zeros++
+							}
+							if zeros >= 16 {
+								o.Violate("C19", "nonce-reused", fmt.Sprintf("the randomness source failed after %d bytes and the value was encrypted all the same, under a nonce ending in %d zero bytes", k, zeros), map[string]string{"rng": "failed"})
+								return
+							}
+						}
+					}
+				}
+				if len(stored) == 2 && bytes.Equal(stored[0], stored[1]) {
+					o.Violate("C19", "nonce-reused", "with a failing randomness source two encryptions of the same value are identical", map[string]string{"rng": "failed"})
+					return
+				}
+			}
+		}
 	case "retain":
 		// values that were read stay what they were while OTHER values are decrypted (other
 		// entry, other Meta, other key, other length; both APIs): a returned slice is the
@@ -569,6 +635,7 @@ func genSecret(r *Rand, g GenCfg) Plan {
 			SecStep{Op: "flip_all", Lo: (n+40)*8 - 300, Hi: -1}, SecStep{Op: "trunc_all", Hi: 100})
 	}
 	p.Steps = append(p.Steps, SecStep{Op: "retain", N: r.Intn(1 << 16)})
+	p.Steps = append(p.Steps, SecStep{Op: "rngfault"})
 	p.Steps = append(p.Steps, SecStep{Op: "extend"})
 	for i := 0; i < 4; i++ {
 		p.Steps = append(p.Steps, SecStep{Op: "otherkey", N: r.Intn(256)})
